@@ -225,7 +225,7 @@ PROPS = {
             'rigid.Functor.__call__[Cup]', 'rigid.Functor.__call__[Cap]', 'rigid.cups', 'rigid.caps', 'rigid.Cup.__init__',
             'rigid.Cap.__init__', 'lemma:canary:rigid.functor', 'lemma:canary:adjoint.homomorphic',
             'monoidal.Functor.__call__[Swap]', 'monoidal.Diagram.swap', 'monoidal.Swap.__init__',
-            ] + FUNCTOR_TY_VC + ADJOINT_VC,
+            'cat.Arrow.__getitem__', 'monoidal.Diagram.__getitem__'] + FUNCTOR_TY_VC + ADJOINT_VC,
         sym=[], rtc='C04',
         level_text='Proof (type-level clauses, all functors, all diagrams of any length): the real whiskering loop of '
                    'monoidal.Functor.__call__ is verified with a relational loop invariant against the contracts of then / '
